@@ -100,12 +100,18 @@ def common(ctx: fw.Ctx, pid: str):
     ctx.trusted_base = [
         "Lean 4 kernel; axioms propext, Classical.choice, Quot.sound only",
         "trivia algebra model Model/Trivia.lean tied by function-level correspondence with expressions/trivia.py",
-        "tree-sitter-nix as independent tokenizer of input and output",
+        "container-fragment model Model/Cst.lean + FromCst.lean + Rebuild.lean tied by whole-round-trip correspondence "
+        "on real tree-sitter trees (harness/cstdump.py: parser contract flatten(cst) == text checked per sample)",
+        "tree-sitter-nix as independent tokenizer of input and output; for the fragment theorems: tree-sitter returns a "
+        "well-formed Cst whose flatten is the text, and lexes the model's token/comment pieces of an output as such",
     ]
     ctx.assumptions = [
         "outputs are judged error-free modulo the formals trailing comma the bundled grammar rejects",
-        "the per-construct renderers are covered by observation of the implementation on the enumerated gaps; the "
-        "theorems cover the trivia algebra they share (see evidence.fragment)",
+        "inside the container fragment (sets with plain names, lists, leaves, line / one-line block comments, no "
+        "leading whitespace) the per-construct parse and render code is modelled and the property is proved by "
+        "structural induction (section Fragment of Props/Cxx.lean; exclusions are decidable and have counterexample "
+        "theorems); outside it the renderers are covered by observation of the implementation on the enumerated gaps; "
+        "the trivia-algebra theorems cover what all constructs share (see coverage.fragment)",
     ]
 
 
@@ -231,8 +237,17 @@ def fragment_inputs(ctx: fw.Ctx):
     for info, text in prog.enumerate_injections():
         yield "sweep", text
     n = 2400 if ctx.quick else 30000
+    outs = []
     for text in frag.programs(ctx.rng, n):
         yield "random", text
+        if len(outs) < (800 if ctx.quick else 10000):
+            r = _real_roundtrip(text)
+            if r[0] == "ok":
+                outs.append(fw.unhx(r[1]))
+    # (c) second-pass inputs: texts the implementation itself wrote (canonical layout); the parser
+    # contract and the tie are checked on them like on any other input
+    for text in outs:
+        yield "output", text
 
 
 def fragment_correspondence(ctx: fw.Ctx):
@@ -247,7 +262,8 @@ def fragment_correspondence(ctx: fw.Ctx):
     from . import cstdump
     from .oracle import cstread
 
-    cov = {"sweep_inputs": 0, "sweep_inside": 0, "random_inputs": 0, "random_inside": 0, "outside": {},
+    cov = {"sweep_inputs": 0, "sweep_inside": 0, "random_inputs": 0, "random_inside": 0, "output_inputs": 0,
+           "output_inside": 0, "output_fixed_points": 0, "outside": {},
            "model_uncovered": {}, "compared": 0, "disagreements": 0, "contract_checked": 0}
     texts, reqs = [], []
     for origin, text in fragment_inputs(ctx):
@@ -314,6 +330,8 @@ def fragment_correspondence(ctx: fw.Ctx):
         if got[0] != "ok":
             continue
         out = fw.unhx(got[1])
+        if origin == "output" and out == text:
+            cov["output_fixed_points"] += 1
         if not pieces or pieces[0] != "ok":
             bad += 1
             if bad <= 5:
@@ -352,6 +370,7 @@ FRAGMENT_PROBES = [
     ("Nima.C03.cex_comment_overtakes", "C03", "[ x\n /* b */ /* c */ y ]"),
     ("Nima.C03.cex_comment_overtakes", "C03", "x\n# a\n/* b */ /* c */\n"),
     ("Nima.C18.cex_block_comment_after_opener", "C18", "{ /* c */ a = 1; }"),
+    ("Nima.C06.cex_comment_around_semicolon", "C06", "{ a = 1 # c\n; # d\n}"),
 ]
 
 
